@@ -35,6 +35,7 @@ St(id, cols, prog) == [id |-> id, cols |-> cols, oids |-> <<>>, prog |-> prog]
 StOk1  == St(1, Col1, <<Row1, Done, RetNil>>)
 StOk0  == St(2, <<>>, <<Done, RetNil>>)
 StFail == St(3, Col1, <<Row1, RetErr>>)
+StPanic == St(8, Col1, <<Row1, [op |-> "panic"]>>)    \* a statement function that panics after a row (extended protocol only)
 
 QOk(st)  == [id |-> st.id, parse |-> "ok", stmts |-> <<st>>]
 QErr     == [id |-> 4, parse |-> "err", perr |-> Err1, stmts |-> <<>>]
@@ -42,7 +43,7 @@ QMulti   == [id |-> 5, parse |-> "ok", stmts |-> <<StOk0, StOk0>>]
 QZero    == [id |-> 6, parse |-> "ok", stmts |-> <<>>]
 QBlank   == [id |-> 7, parse |-> "blank", stmts |-> <<>>]
 
-ParseScripts == {QOk(StOk1), QOk(StFail), QErr} \cup (IF Rich THEN {QOk(StOk0), QMulti, QZero} ELSE {})
+ParseScripts == {QOk(StOk1), QOk(StFail), QErr} \cup (IF Rich THEN {QOk(StOk0), QMulti, QZero, QOk(StPanic)} ELSE {})
 
 Alphabet ==
     {[t |-> "P", name |-> n, q |-> q, noids |-> 0] : n \in Names, q \in ParseScripts}
@@ -79,11 +80,13 @@ MCSend ==
     /\ \E m \in IF phase = "startup" THEN {StartupMsg} ELSE Alphabet :
           /\ ClientSend(m)
           /\ hist' = Append(hist, [k |-> "send", m |-> m])
-          \* (whether the closed name was defined is part of the view: closing a defined name and closing a
-          \* name that never existed lead to the same abstract state but not necessarily to the same
-          \* implementation state)
-          /\ gone' = IF m.t = "C"
-                     THEN gone \cup {<<m.kind, m.name, (m.kind = "P" /\ m.name \in DOMAIN portals) \/ (m.kind = "S" /\ m.name \in DOMAIN stmts)>>}
+          \* (names closed while they were defined are part of the view until they are defined again: closing a
+          \* defined name and closing a name that never existed lead to the same abstract state but not
+          \* necessarily to the same implementation state)
+          /\ gone' = IF m.t = "C" /\ ((m.kind = "P" /\ m.name \in DOMAIN portals) \/ (m.kind = "S" /\ m.name \in DOMAIN stmts))
+                     THEN gone \cup {<<m.kind, m.name>>}
+                     ELSE IF m.t = "P" THEN gone \ {<<"S", m.name>>}
+                     ELSE IF m.t = "B" THEN gone \ {<<"P", m.portal>>}
                      ELSE gone
     /\ UNCHANGED cur
 
